@@ -373,6 +373,42 @@ def rule_flush(ctx):
             "BufferedSocket.%s must flush and then %s the real socket" % (nm, nm), f.loc())
 
 
+def rule_wrapper_handlers(ctx):
+    """WRAPPER: a handshake that ends in any exception leaves the connection shut down and the session
+    not resumable.  In _handshakeWrapperAsync every handler either calls _shutdown(False) or catches only
+    what already did: GeneratorExit (the caller abandoned the coroutine) and the TLSAlert family (raised
+    by _sendError / on a received alert, after their own _shutdown).  A wider class there - TLSError also
+    covers TLSAbruptCloseError and TLSAuthenticationError - lets those failures through without shutdown."""
+    R = "C17.WRAPPER"
+    fi = ctx.index.func(TLSCONN + "_handshakeWrapperAsync")
+    g = ctx.an.cfg(fi)
+    outer = [(tr, h, hn) for (tr, h, hn) in g.handlers if any(
+        isinstance(s_, ast.For) and norm(s_.iter) == "handshaker" for s_ in tr.body)]
+    if not outer:
+        raise AnalysisError("%s: the try around the handshaker loop not found" % R)
+    n_catch_all = 0
+    for tr, h, hn in outer:
+        shuts = any(isinstance(x, ast.Call) and call_name(x) == "_shutdown" and x.args and norm(x.args[0]) == "False"
+                    for s_ in h.body for x in ast.walk(s_))
+        if h.type is None:
+            n_catch_all += 1
+            ctx.check(R, shuts, fi.qname, "catch-all handler shuts down", "the catch-all handler of the handshake "
+                      "wrapper must call _shutdown(False)", fi.loc(h))
+            continue
+        if shuts:
+            continue
+        for e_ in (h.type.elts if isinstance(h.type, ast.Tuple) else [h.type]):
+            nm = norm(e_)
+            ok = nm == "GeneratorExit" or ctx.an.exc.is_sub(nm, "TLSAlert")
+            ctx.check(R, ok, fi.qname, "handler for %s" % nm,
+                      "the handshake wrapper lets `%s` pass without _shutdown(False); only GeneratorExit and the "
+                      "TLSAlert family (which shut down where they are raised) may" % nm, fi.loc(h),
+                      what="handler without shutdown catches only %s" % nm)
+    if n_catch_all != 1:
+        ctx.fail(R, fi.qname, "catch-all handler", "the handshake wrapper has no catch-all handler that shuts the "
+                 "connection down", fi.loc())
+
+
 def rule_alert_header(ctx):
     """ALERT-HEADER: a received record is taken for the peer's alert (and raised as TLSRemoteAlert) only
     on the strength of ITS OWN header: wherever `Alert().parse(p)` runs on a parser that came out of a
@@ -424,6 +460,7 @@ def rule_alert_header(ctx):
 
 RULES = [
     ("C17.ALERT-HEADER", "quick", rule_alert_header),
+    ("C17.WRAPPER", "quick", rule_wrapper_handlers),
     ("C17.SHUTDOWN-ARG", "quick", rule_shutdown_arg),
     ("C17.ALERT", "quick", rule_alert),
     ("C17.EOF", "quick", rule_eof),
